@@ -82,6 +82,10 @@ CHECKS = {
          "every documented statement kind with every type expression of <=3/4 constructor nodes must be accepted as one statement whose understood tree equals the reference tree and whose printed form reads back to the same tree; every single-token corruption of 11 documented lines, embedded between good annotation lines above a declaration, must leave the Lua diagnostics unchanged, put any type-18 warning on the corrupted line only, and leave the neighbouring class members understood",
          "trusted: internal/annref (grammar of docs/manual/annotate.md: [] binds tighter than |, parentheses group, fun return lists extend to the end of the type)",
          "DESIGN.md §4 C16"),
+ 'C01': ("bounded-exhaustive enumeration in five layers (all small byte/token strings through the front end; documents through a full server start followed by every request kind at every position; all conformant message histories up to a depth; every one-/two-field deviation of luahelper.json) with process-level crash/hang attribution and visibility of swallowed panics",
+         "the real lexer, parser and comment analysis see every string of <=3/4 symbols over a 29-symbol byte alphabet and every string of <=2/3 lexemes; degenerate documents, scope programs, statement mutants and annotation blocks (cyclic classes and aliases, truncated lines) are started on a real server and 14 request kinds are asked at every position up to one line and two columns beyond the text; every message history of depth <=2/3 over 49 events and every field deviation of luahelper.json is run; a dying or hanging worker is narrowed to one case and confirmed three times, and the instrumented recover() sites report any swallowed fault",
+         "trusted: the worker/parent crash attribution of internal/core; a hang = no return within 20-60 s when run alone; deadlocks of the concurrent shell are C10's exploration; bounds as stated",
+         "DESIGN.md §4 C01"),
 }
 NOT_YET = "check not built yet in this round (planned: see DESIGN.md section 4); no claim is made"
 
